@@ -124,7 +124,7 @@ package mqtt
 // assumption A-config: the capabilities object of the server options is installed before the server runs
 // (ensureDefaults, called from New) and not replaced afterwards
 // verif:frozen mqtt.Options.Capabilities
-// verif:def validSrv(s *Server) bool = s != nil && s.Info != nil && s.hooks != nil && s.Options != nil && s.Options.Capabilities != nil && s.Options.Capabilities.Compatibilities != nil && 0 <= s.Options.Capabilities.MaximumMessageExpiryInterval && s.Options.Capabilities.MaximumMessageExpiryInterval <= 4611686018427387904 && cntOK(s)
+// verif:def validSrv(s *Server) bool = s != nil && s.Info != nil && s.hooks != nil && s.Options != nil && s.Options.Capabilities != nil && s.Options.Capabilities.Compatibilities != nil && 0 <= s.Options.Capabilities.MaximumMessageExpiryInterval && s.Options.Capabilities.MaximumMessageExpiryInterval <= 4611686018427387904 && cntOK(s) && s.Topics != nil && s.Clients != nil && s.Log != nil
 // counters stay far from the int64 limits (2^62 events do not happen)
 // verif:def cntOK(s *Server) bool = -4611686018427387904 <= s.Info.Inflight && s.Info.Inflight <= 4611686018427387904 && -4611686018427387904 <= s.Info.Subscriptions && s.Info.Subscriptions <= 4611686018427387904
 
@@ -463,10 +463,29 @@ package mqtt
 //@ ensures C38-retained-counter-follows-the-store: !(s.Options.Capabilities.RetainAvailable == 0 || pk.Ignore) ==> s.Info.Retained == int64(len(rmap(s.Topics)))
 //@ ensures index-kept: retainOK(s)
 
-// verif:func mqtt.Server.publishToSubscribers trusted
+// the ghost trace of routed messages is kept by definition (axiom clauses); what the routing does with a message is proved below
+// verif:func mqtt.Hooks.OnSelectSubscribers trusted
+//@ ensures r0 != nil && r0.Subscriptions != nil && r0.Subscriptions != r0.SharedSelected
+// (frame trusted: what a delivery changes in the recipients' sessions is publishToClient's contract; a publisher that receives its own message is not modelled in its handler)
+// verif:func mqtt.Server.publishToSubscribers noframe
+//@ requires s.Options != nil && s.Options.Capabilities != nil && s.hooks != nil && s.Topics != nil && s.Clients != nil && s.Log != nil
 //@ modifies nrouted, routedpk
-//@ ensures pk.Ignore ==> nrouted == old(nrouted)
-//@ ensures !pk.Ignore ==> nrouted == old(nrouted) + 1 && routedpk[old(nrouted)] == pk
+//@ axiom pk.Ignore ==> nrouted == old(nrouted)
+//@ axiom !pk.Ignore ==> nrouted == old(nrouted) + 1 && routedpk[old(nrouted)] == pk
+// C03 / C40: the subscribers are looked up for the message's own topic, once, and not at all for an ignored message
+//@ callsite mqtt.TopicsIndex.Subscribers C03-subscribers-are-those-of-the-messages-topic: arg0 == s.Topics && arg1 == pk.TopicName && !pk.Ignore
+// C06: members of share groups are chosen by the hooks or, if they chose nobody, by SelectShared (what SelectShared and the merge do: their own contracts)
+//@ callsite mqtt.Subscribers.SelectShared C06-the-broker-selects-only-if-the-hooks-selected-nobody: len(arg0.SharedSelected) == 0
+// C40: every inline subscription of the result is called with its own subscription and the message
+//@ callsite mqtt.InlineSubFn C40-inline-handler-gets-its-subscription-and-the-message: arg0 == s.inlineClient && arg1 == inlineSubscription.Subscription && arg2.TopicName == pk.TopicName && arg2.Payload == pk.Payload && arg2.FixedHeader.Qos == pk.FixedHeader.Qos && (arg2.FixedHeader.Retain <==> pk.FixedHeader.Retain) && arg2.Origin == pk.Origin
+// C03: each recipient id is delivered to through the client registered under that id, with the (merged) subscription recorded for it
+//@ callsite mqtt.Server.publishToClient C03-delivery-goes-to-the-registered-client-with-its-own-subscription: arg0 == s && has(s.Clients.internal, id) && arg1 == s.Clients.internal[id] && arg2 == subs && arg3.TopicName == pk.TopicName && arg3.Payload == pk.Payload && arg3.FixedHeader.Qos == pk.FixedHeader.Qos && (arg3.FixedHeader.Retain <==> pk.FixedHeader.Retain) && arg3.Origin == pk.Origin && arg3.PacketID == pk.PacketID
+// C25: a message without expiry time gets one from its message expiry interval, capped by the server maximum
+//@ callsite mqtt.Server.publishToClient C25-routed-message-has-its-expiry-time: pk0.Expiry != 0 ==> arg3.Expiry == pk0.Expiry
+// verif:loop mqtt.Server.publishToSubscribers 1
+//@ invariant s.inlineClient == old(s.inlineClient) && s.Clients != nil && s.Log != nil
+// verif:loop mqtt.Server.publishToSubscribers 2
+//@ invariant s.Clients != nil && s.Log != nil
 
 // verif:def validClPub(cl *Client) bool = validCl(cl) && cl.State.TopicAliases.Inbound != nil && cl.State.TopicAliases.Inbound.internal != nil
 // verif:def accepted(cl *Client, pk Packet) bool = (cl.Net.Inline || (validPub(pk.TopicName) && aclOK(cl, pk.TopicName, true))) && publishErr == nil
@@ -1301,7 +1320,7 @@ package mqtt
 
 // verif:def wd(s *Server) map = s.loop.willDelayed.internal
 // verif:func mqtt.Server.sendLWT modifies=all
-//@ requires cl != nil && s.hooks != nil && s.loop != nil && s.loop.willDelayed != nil && s.loop.willDelayed.internal != nil && s.Options != nil && s.Options.Capabilities != nil && s.Info != nil && retainOK(s)
+//@ requires cl != nil && s.hooks != nil && s.loop != nil && s.loop.willDelayed != nil && s.loop.willDelayed.internal != nil && s.Options != nil && s.Options.Capabilities != nil && s.Info != nil && retainOK(s) && s.Topics != nil && s.Clients != nil && s.Log != nil
 //@ axiom nwillsent == old(nwillsent) + 1
 //@ ensures C16-no-will-nothing-published: old(cl.Properties.Will.Flag) == 0 ==> nrouted == old(nrouted) && nretain == old(nretain) && (forall k string :: (has(wd(s), k) <==> old(has(wd(s), k))))
 //@ ensures C16-will-published-once-as-requested: aclOK(cl, old(cl.Properties.Will.TopicName), true) && old(cl.Properties.Will.Flag) != 0 && old(cl.Properties.Will.WillDelayInterval) == 0 ==> nrouted == old(nrouted) + 1 && routedpk[old(nrouted)].TopicName == old(cl.Properties.Will.TopicName) && routedpk[old(nrouted)].Payload == old(cl.Properties.Will.Payload) && routedpk[old(nrouted)].FixedHeader.Qos == old(cl.Properties.Will.Qos) && (routedpk[old(nrouted)].FixedHeader.Retain <==> old(cl.Properties.Will.Retain)) && routedpk[old(nrouted)].FixedHeader.Type == Publish && cl.Properties.Will.Flag == 0
